@@ -390,7 +390,7 @@ def run(ctx):
                         'layout_encase is a transcription of encase 0.10 (derive + types/{vector,matrix,array}.rs), layout_wgsl of the WGSL AlignOf/SizeOf table; '
                         'both are validated natively (3) against real encase and naga on a corpus every run',
                         'naga\'s offsets / strides / spans are the WGSL layout (front end, trusted)']
-    ctx.bounds = {'obligation 1': 'member types symbolic as in C06 (one per run), representation fixed to Glam, encase on',
+    ctx.bounds = {'obligation 1': 'member types symbolic as in C06 (one per run), representation fixed to Glam, encase on; bytemuck vertex / host-shareable and serde switches symbolic in the leaf-type run',
                   'obligation 2': f'structs of up to {3 if quick else 4} members: leaf in {LEAVES} (4-byte scalars) | array<leaf, 1..4> | nested struct of two leaves; optional explicit @align 2^0..2^6, @size +0..64',
                   'obligation 3': 'corpus of 10 structs incl. vec3+scalar packing, arrays of vec3 / mat3x3 / structs, nested structs, atomics, runtime arrays of 0, 1, 3 elements'}
     seen = {}
